@@ -231,6 +231,19 @@ pub fn generate(rng: &mut Rng, prop: Prop) -> Scenario {
             s.push(Item::new("reset"));
         }
     }
+    if rng.chance(1, 400) {
+        // a heartbeat message announcing the maximum payload, fed in record-sized chunks: the
+        // accumulated length crosses 2^16 (the pseudo-header's u16 length cannot hold it)
+        let mut first = vec![*rng.pick(&[1u8, 2]), 0xff, 0xff];
+        let fl = rng.urange(0, 40);
+        first.extend(rng.bytes(fl));
+        s.push(Item::new("rec").int("type", 24).int("ver", 0x0303).bytes("data", &first));
+        let chunk = *rng.pick(&[16384u64, 16000, 9000, 16640]);
+        s.push(Item::new("rec").int("type", 24).int("ver", 0x0303).int("fill", rng.u8() as u64).int("n", chunk).int("rep", rng.range(4, 9)));
+        if rng.chance(1, 2) {
+            s.push(Item::new("reset"));
+        }
+    }
     if f_oversize {
         // an unfinished handshake message fed until the 10 MiB bound, then some more
         let mut first = vec![0x0b, 0xff, 0xff, 0xff];
